@@ -293,6 +293,100 @@ def multidigit_roundtrip(case):
               if not isinstance(present, bool) else (raw_item(items, j) == raw_item(data, idx + j) if present else raw_item(items, j) == 0))
 
 
+# ------------------------------------------------------------------------------------------------ DecInt
+def decimal_facts_validation():
+    """native validation (sampled: the domain is infinite) of the facts used about str(int) / int(str) / str.isdigit:
+    for v >= 0, str(v) is a non-empty run of characters c with c.isdigit(), and int(str(v)) == v"""
+    n = 0
+    vs = list(range(0, 3000)) + [10 ** k + d for k in range(3, 40) for d in (-1, 0, 1)] + [7 ** k for k in range(5, 60)]
+    for v in vs:
+        d = str(v)
+        assert len(d) >= 1 and all(c.isdigit() for c in d) and int(d) == v
+        n += 1
+    return n
+
+
+def _concat_lemmas(text, pre, mid, rest, n):
+    """theorems of the theory of strings about text == pre + mid + rest (each proved by `concat_substring_lemma`):
+    text[len(pre)+n] is mid[n] for 0 <= n < len(mid); the character after mid is rest[0]; the Python slice
+    text[len(pre):len(pre)+n] is mid when n == len(mid)"""
+    from pyvc.hostmodels import _py_slice_bounds
+    hyp = text == _z3.Concat(pre, mid, rest)
+    P, M = _z3.Length(pre), _z3.Length(mid)
+    lo, hi = _py_slice_bounds(_z3.Length(text), SInt(P), SInt(P) + SInt(n))
+    ln = _z3.If(hi > lo, hi - lo, _z3.IntVal(0))
+    return [_z3.Implies(_z3.And(hyp, n >= 0, n < M), _z3.SubString(text, P + n, 1) == _z3.SubString(mid, n, 1)),
+            _z3.Implies(_z3.And(hyp, _z3.Length(rest) > 0), _z3.SubString(text, P + M, 1) == _z3.SubString(rest, 0, 1)),
+            _z3.Implies(_z3.And(hyp, n == M), _z3.SubString(text, lo, ln) == mid)]
+
+
+@harness("C15")
+def concat_substring_lemma(case):
+    if CTX.mode != "sym":
+        return
+    text, pre, mid, rest, n = sstr("text"), sstr("pre"), sstr("mid"), sstr("rest"), sint("n")
+    for j, f in enumerate(_concat_lemmas(text.t, pre.t, mid.t, rest.t, n.t)):
+        check("substring-of-a-concatenation-%d" % j, mk_bool(f))
+
+
+def _decint_inputs(case):
+    for v in (0, 1, 9, 10, 99, 100, 12345, 10 ** 20):
+        for pre in ("", "x", "12/"):
+            for rest in ("", "/", "a7"):
+                yield dict(v=v, pre=pre, rest=rest)
+
+
+@harness("C15", native_inputs=_decint_inputs)
+def decint_roundtrip(case):
+    """DecInt: a non-negative int is written as str(v) and read back from pre + str(v) + rest at len(pre), consuming
+    exactly the digits, provided the text after it does not start with a digit (greedy reader); negative ints and
+    non-ints are refused.  str(int)/int(str)/isdigit are uninterpreted; the facts used are ground instances of
+    decimal_facts_validation."""
+    env = _env()
+    obj = OBJ(PS, "DecInt")
+    v, pre, rest = sint("v"), sstr("pre"), sstr("rest")
+    o = call(REAL(PS, "DecInt.serialize"), obj, env, mklist([sint("other"), v]), 1)
+    check("serialize-no-exception", not o.raised)
+    if o.raised:
+        return
+    check("negative-values-are-refused,-others-accepted", (o.value is None) == (v < 0) if isinstance(v < 0, bool) else
+          (mk_bool(v.t < 0) if o.value is None else mk_bool(v.t >= 0)))
+    if o.value is None:
+        return
+    k, s = o.value
+    check("one-item-consumed", k == 1)
+    if CTX.mode == "sym":
+        D = UF["str_int"](v.t)
+        L = _z3.Length(D)
+        check("the-text-is-str(v)", s == SStr(D))
+        assume_fact(mk_bool(_z3.And(L >= 1, UF["int10_ok"](D), UF["int10"](D) == v.t)))
+        requires(Or(length(rest) == 0, Not(mk_bool(UF["isdigit"](_z3.SubString(rest.t, 0, 1))))))
+
+        def havoc_n():
+            kk = _z3.Int(CTX.fresh_name("n_digits"))
+            # instance of "every character of str(v) is a digit" at the havoced position
+            assume_fact(mk_bool(_z3.Implies(_z3.And(kk >= 0, kk < L), UF["isdigit"](_z3.SubString(D, kk, 1)))))
+            for f in _concat_lemmas((pre + s + rest).t, pre.t, D, rest.t, kk):
+                lemma("C15/concat_substring_lemma", mk_bool(f))
+            return SInt(kk)
+
+        loop_spec(PS + "::DecInt.deserialize", 0, types={"n_digits": havoc_n},
+                  inv=lambda ns: [ns.n_digits >= 0, ns.n_digits <= mk_int(L), ns.idx == length(pre)])
+    else:
+        check("the-text-is-str(v)", s == str(v))
+    text = pre + s + rest
+    o2 = call(REAL(PS, "DecInt.deserialize"), obj, env, text, length(pre))
+    check("deserialize-no-exception", not o2.raised)
+    if o2.raised:
+        return
+    check("deserialize-accepts-own-output", o2.value is not None)
+    if o2.value is None:
+        return
+    n2, items = o2.value
+    check("consumes-exactly-the-produced-text", n2 == length(s))
+    check("yields-the-original-value", is_list(items) and length(items) == 1 and item(items, 0) == v)
+
+
 # ------------------------------------------------------------------------------------------------ FixStr, Dict
 @harness("C15")
 def fixstr_roundtrip(case):
@@ -372,10 +466,12 @@ def leading_class(cls, **p):
         return lambda code: alnum(code) and digit_value(code) < p["base"] ** p["digits"]
     if cls == "Dict":
         return lambda code: any(len(a) > 0 and ord(a[0]) == code for a in p["after"])
+    if cls == "DecInt":
+        return lambda code: chr(code).isdigit()
     raise KeyError(cls)
 
 
-@harness("C15", cases=[dict(cls=c) for c in ("HexInt", "Spaces", "IntSpaces", "Dict")] +
+@harness("C15", cases=[dict(cls=c) for c in ("HexInt", "Spaces", "IntSpaces", "Dict", "DecInt")] +
          [dict(cls="MultiDigit", base=b, digits=d) for (b, d) in ((2, 1), (2, 5), (3, 3), (6, 2), (36, 1), (5, 2), (2, 3))])
 def leaf_accepts_only(case):
     """`Lead` for the leaves: at the end of the text every leaf decoder answers None, and it answers something else only
@@ -411,6 +507,12 @@ def leaf_accepts_only(case):
         requires(And(length(a0) >= 1, length(a1) >= 1))
         obj = OBJ(PS, "Dict", _before=mklist([sref("b0"), sref("b1")]), _after=mklist([a0, a1]))
         member = _z3.Or(c0 == _z3.SubString(a0.t, 0, 1), c0 == _z3.SubString(a1.t, 0, 1))
+    elif case.cls == "DecInt":
+        obj = OBJ(PS, "DecInt")
+        member = UF["isdigit"](c0)
+        loop_spec(PS + "::DecInt.deserialize", 0,
+                  inv=lambda ns: [ns.n_digits >= 0, ns.idx + ns.n_digits <= length(ns.data), ns.idx == idx, ns.data == text,
+                                  implies(ns.n_digits >= 1, mk_bool(member))])
     else:
         obj = OBJ(PS, "MultiDigit", _base=case.base, _digits=case.digits)
         member = _z3.And(alnum, value < case.base ** case.digits)
